@@ -362,6 +362,25 @@ class SymStr:
         return bool(self._match_at(len(self.items) - len(nd), nd))
 
     # -- stripping / splitting (fork per boundary item)
+    def _strip_numerals(self, chars, left, right):
+        """strip() with a character set / a text that holds numeral atoms: the set of characters depends on how the numbers
+        print, so everything is made concrete (numerals per printing class); an integer numeral at the stripped end is first
+        forked over 'its outer digit is in the set' so that both outcomes are explored"""
+        c = core.ctx()
+        cs = concretise(chars) if isinstance(chars, SymStr) else chars
+        digits = [int(ch) for ch in cs if ch.isdigit()]
+        items = list(self.items)
+        for pos, on in ((0, left), (-1, right)):
+            if on and items and isinstance(items[pos], Num) and items[pos].kind == "int" and core.is_sym(items[pos].v) and digits:
+                v = items[pos].v
+                if pos == -1:
+                    hit = Or(*[v % 10 == d for d in digits])
+                    which = c.choose([hit, Not(hit)], label="outer digit of a numeral in the stripped set")
+                    if which == 0:
+                        c.pin_value(v.e, [d for d in digits if d] + [10 + d for d in digits], label="numeral ending in a stripped digit")
+        text = concretise(SymStr(tuple(items)))
+        return text, cs
+
     def _strip_idx(self, chars, left=True, right=True):
         chars = WS if chars is None else chars
         a, b = 0, len(self.items)
@@ -374,14 +393,26 @@ class SymStr:
         return a, b
 
     def strip(self, chars=None):
+        if chars is not None and self.items and (isinstance(chars, SymStr) or any(isinstance(it, Num) for it in self.items) and any(ch.isdigit() or ch in ".e-+" for ch in chars)):
+            if isinstance(chars, SymStr) or isinstance(self.items[0 if True else -1], Num) or isinstance(self.items[-1 if True else 0], Num):
+                text, cs = self._strip_numerals(chars, True, True)
+                return text.strip(cs)
         a, b = self._strip_idx(chars)
         return SymStr(self.items[a:b])._norm()
 
     def lstrip(self, chars=None):
+        if chars is not None and self.items and (isinstance(chars, SymStr) or any(isinstance(it, Num) for it in self.items) and any(ch.isdigit() or ch in ".e-+" for ch in chars)):
+            if isinstance(chars, SymStr) or isinstance(self.items[0 if True else -1], Num) or isinstance(self.items[-1 if False else 0], Num):
+                text, cs = self._strip_numerals(chars, True, False)
+                return text.lstrip(cs)
         a, b = self._strip_idx(chars, right=False)
         return SymStr(self.items[a:b])._norm()
 
     def rstrip(self, chars=None):
+        if chars is not None and self.items and (isinstance(chars, SymStr) or any(isinstance(it, Num) for it in self.items) and any(ch.isdigit() or ch in ".e-+" for ch in chars)):
+            if isinstance(chars, SymStr) or isinstance(self.items[0 if False else -1], Num) or isinstance(self.items[-1 if True else 0], Num):
+                text, cs = self._strip_numerals(chars, False, True)
+                return text.rstrip(cs)
         a, b = self._strip_idx(chars, left=False)
         return SymStr(self.items[a:b])._norm()
 
@@ -786,6 +817,9 @@ def to_repr(x):
     return repr(x)
 
 
+_LONG_MANTISSA = [[66.66667, 12.345678, 2.0000051, 0.6666667, 1234.5678], [1.0000049, 33.33333, 87.654322, 0.3333333, 1234.5612]]
+
+
 def fstring(parts):
     """parts: list of ('s', literal) | ('v', value, conversion, spec)"""
     out = []
@@ -807,8 +841,16 @@ def fstring(parts):
                     raise core.Unsupported(f"format spec {spec!r} on a symbolic value")
                 digits, kind_ = int(m.group(1)), m.group(2)
                 c = core.ctx()
-                r = c.fresh_real("rounded")
                 x = core._real(v)
+                # two ways to follow a rounding format, both explored: (0) the printed numeral stands for SOME number within
+                # the format's rounding error (covers every value); (1) the value is pinned to a representative with more
+                # digits than the format keeps and printed by CPython itself (exact, so that a candidate replays)
+                way = c.choose([True, True, True], label="rounding format: any value within the error / a pinned long mantissa rounded up / rounded down")
+                if way:
+                    val = c.pin_value(x.term(), _LONG_MANTISSA[way - 1], label="long mantissa")
+                    out.append(format(float(val), spec))
+                    continue
+                r = c.fresh_real("rounded")
                 if kind_ in "fF":
                     c.add((abs(r - x) <= 0.5 * 10 ** (-digits)).e)
                 else:
